@@ -1417,6 +1417,13 @@ class Stage:
         ret.variables = deepcopy(self.variables)
 
         ret._offsets = deepcopy(self._offsets)
+        # signals (grid='bspline' variables/parameters and their derivatives): same symbols, own bookkeeping objects
+        ret._signals = HashOrderedDict()
+        for symbol, signal in self._signals.items():
+            AbstractSignal.register(ret._signals, symbol, AbstractSignal(signal.order))
+        for symbol, signal in self._signals.items():
+            if signal.derivative is not None:
+                ret._signals[symbol].derivative = ret._signals[signal.derivative.symbol]
         ret._inf_inert = copy(self._inf_inert)
         ret._inf_der = copy(self._inf_der)
         ret._param_vals = copy(self._param_vals)
